@@ -217,4 +217,16 @@ static void _skip_bytes(binson_parser *parser, size_t size)
     }
 """)],
      'expect': {'C01': None, 'C18': None}},
+    {'name': 'decoder_big_endian', 'edits': [(P, """    for (i = length_data->bsize; i > 0; i--) {
+        ui64 <<= 8;
+        ui64 |= length_data->bptr[i-1];
+    }""", """    for (i = 0; i < length_data->bsize; i++) {
+        ui64 <<= 8;
+        ui64 |= length_data->bptr[i];
+    }""")],
+     'expect': {'C03': 'little-endian', 'C10': 'byte order'}},
+    {'name': 'decoder_sign_from_first_byte', 'edits': [(P, "uint64_t ui64 = (length_data->bptr[length_data->bsize - 1] & 0x80) ? ~0ULL : 0;", "uint64_t ui64 = (length_data->bptr[0] & 0x80) ? ~0ULL : 0;")],
+     'expect': {'C03': 'sign fill'}},
+    {'name': 'encoder_big_endian', 'edits': [(W, "        buffer[1 + i] = (uint8_t) (uval & 0xFFU);", "        buffer[size - i] = (uint8_t) (uval & 0xFFU);")],
+     'expect': {'C05': 'little-endian', 'C10': 'byte order', 'C04': None}},
 ]
